@@ -327,5 +327,5 @@ def targets(ctx):
         Target("protoc_legality_probe", protoc_ev, cases=protoc_cases, exhaustive=True, shard_cases=False),
         Target("identifiers_random", batch_ev, strategy=rand, quick=150, thorough=1500),
         _seq.target("C19"),
-        *__import__("vf.props._thr", fromlist=["target"]).target(ctx, ['from_dict_names', 'to_dict:Names']),
+        *__import__("vf.props._thr", fromlist=["target"]).target(ctx, ['from_dict_names', 'to_dict:Names', 'tiny_from_dict']),
     ]
